@@ -4,6 +4,7 @@
 package drv
 
 import (
+	"errors"
 	"bufio"
 	"context"
 	"crypto/ecdsa"
@@ -607,6 +608,11 @@ func (b *Browser) Get(u string) (*Hop, error) {
 	}
 	resp, err := b.C.Do(req)
 	if err != nil {
+		// the gateway dropped the connection without an answer (a handler that panicked is recovered by net/http
+		// by closing the connection): that is an observation - "no answer" - not a failure of the harness
+		if toGW && b.I.P.Alive() && (errors.Is(err, io.EOF) || strings.Contains(err.Error(), "EOF") || strings.Contains(err.Error(), "connection reset")) {
+			return &Hop{URL: u, Status: -1, Header: http.Header{}}, nil
+		}
 		return nil, err
 	}
 	defer resp.Body.Close()
